@@ -526,8 +526,22 @@ def run_property(ctx):
         if spec.get('srceval'):
             from . import srceval
             evl = srceval.run(ctx)
+        sset = None
+        if spec.get('srcset'):
+            from . import srcset
+            sset = srcset.run(ctx)
         for s in spec['suites']:
             run_suite(ctx, s)
+        if sset:
+            status, detail, info = sset
+            ctx.suite_stats.append(dict(suite='S-srcset', cases=0, distinct_nontrivial=0, mismatches=0, ops={}, samples=[],
+                                        rule='no inputs: categorize, insert, union, intersect and complement of src/set.rs, translated, are proved equal to the model operations for all diagrams, widths and elements', exhaustive=False, profile='-', source_function=info))
+            if status == 'obligation-failed' and not any(not no_input for _, no_input in ctx.violations):
+                ctx.violation({'kind': 'proof-obligation', 'key': 'srcset:' + ctx.pid,
+                               'broken': 'src_categorize_ok / src_insert_ok / src_union_ok / src_intersect_ok / src_complement_ok: an operation of src/set.rs as regenerated from the source is no longer the model operation',
+                               'detail': detail}, no_input=True)
+            elif status == 'shape-not-recognised':
+                ctx.notes.append('source functions of src/set.rs: the translator does not recognise their shape any more (%s); the obligations were not re-derived in this run' % detail)
         if evl:
             status, detail, info = evl
             ctx.suite_stats.append(dict(suite='S-srceval', cases=0, distinct_nontrivial=0, mismatches=0, ops={}, samples=[],
